@@ -57,7 +57,7 @@ requires neither) — and the context is examined only *after* the submitters ha
 is still seen. -/
 theorem fetchTail_tail_tie (runFails ctxDone : Bool) :
     Gen.fetchTailTail runFails ctxDone = (if runFails || ctxDone then 1 else 0) ∧
-    Gen.fetchTailTailOrder = ["err = fetcher.Run(", "close(batches)", "wg.Wait()", "if err != nil", "if err := cctx.Err()", "return sth.TreeSize, nil"] := by
+    Gen.fetchTailTailOrder = ["fetcher.Run(", "close(batches)", "wg.Wait()", "if err != nil", "cctx.Err()"] := by
   constructor
   · cases runFails <;> cases ctxDone <;> decide
   · decide
